@@ -13,7 +13,7 @@ LEVEL = 'exploration'
 BUDGET = {'quick': 1500, 'thorough': 6000}
 RULE = ('Hypothesis-generated histories: 1-3 Transform2D and 1-3 Transform3D instances built with default or '
         'generated constructor arguments, 1-4 listeners each subscribed to a generated subset of the three '
-        'change events (callbacks named like the event or renamed; a third of the listeners are falsy objects - empty collections) on a generated subset of the transforms, then listeners subscribing / unsubscribing in between and assignments (also augmented +=) to '
+        'change events (callbacks named like the event or renamed; some listeners are instances of ONE probe class, each declaring its events in an __events__ attribute of its own; a third of the listeners are falsy objects - empty collections) on a generated subset of the transforms, then listeners subscribing / unsubscribing in between and assignments (also augmented +=) to '
         'position / rotation / scale with 2D rotations concentrated outside [0, 360) (negative, > 360, exact '
         'multiples of 360, tiny, large, ints and floats) and vectors given as Vec2/Vec3 or plain tuples. Oracle: '
         'after each assignment the property reads back the assigned value (2D rotation: value % 360.), exactly '
@@ -77,8 +77,28 @@ def run_case(case):
     log = []
     current = {'t': None, 'prop': None, 'nested': None, 'dim': 2}
 
+    def make_probe_class():
+        # ONE class for several listeners: every callback exists, each INSTANCE declares the events it wants in an
+        # __events__ attribute of its own (a probe built with the event names it should observe)
+        ns = {}
+        for e in EVENTS:
+            def cb(self, *a, _e=e):
+                t = current['t']
+                log.append((self.ix, _e, a, getattr(t, _e[3:-7]) if t is not None else None))
+            ns[e] = cb
+
+        def __init__(self, ix, evs):
+            self.ix = ix
+            self.__events__ = {e: e for e in evs}
+        ns['__init__'] = __init__
+        return type('Probe', (), ns)
+    probe_class = make_probe_class()
+
     def make_listener(ix, mask, reactive=False, renamed=False):
         evs = [e for i, e in enumerate(EVENTS) if mask >> i & 1]
+        if not reactive and not renamed and (mask + ix) % 3 == 1:
+            facts['listener_declaring_its_events_on_the_instance'] += 1
+            return probe_class(ix, evs), set(evs)
         # renamed: event_handler(on_position_change='moved')-style mapping, the callback is not named like the event
         name = (lambda e: 'cb_' + e[3:]) if renamed else (lambda e: e)
         ns = {'__events__': {e: name(e) for e in evs}}
